@@ -76,7 +76,8 @@ def walk_compiled(c, flags):
         "connections": [[_ep(s), _ep(t)] for s, t in c.connections.items()],
         "repetition": rep,
         "constraints": [{"lhs": ex(k.lhs), "rhs": ex(k.rhs), "status": k.status.name} for k in c.constraints],
-        "children": [walk_compiled(ch, flags) for ch in c.children.values()],
+        # (a child is listed under the KEY the children mapping holds it under: the key is the child's name)
+        "children": [dict(walk_compiled(ch, flags), name=k) for k, ch in c.children.items()],
         "children_order": list(c.children_order),
     }
 
@@ -374,6 +375,8 @@ def _cost(kind, a, b, c):
         return lambda x: a * (x - b) * (x - b) * (x - b) * (x - b) + c * x
     if kind == 2:
         return lambda x: a * x * x * x + b * x * x + c * x
+    if kind == 4:
+        return lambda x: c + 0.0 * x
     return lambda x: a * x + b
 
 
@@ -639,6 +642,24 @@ def impl_repro(case):
         out["evaluate_pure"] = pickle.dumps(res1.routine) == snap and assign == a_before
         out["evaluate_repeatable"] = e1.routine == e2.routine
         out["eval_sha"] = hashlib.sha256(e1.to_qref().model_dump_json().encode()).hexdigest()
+        # a user function that reads a setting of the caller's: evaluated again after the setting changed, with the SAME callable,
+        # the result is what a fresh callable with the new setting gives (nothing of the earlier evaluation is remembered)
+        try:
+            setting = {"k": 2}
+
+            def _sf(*a):
+                return setting["k"] * sum(a) + 1 if a else setting["k"]
+            evaluate(res1.routine, assign, functions_map={"f": _sf, "g": _sf})
+            setting["k"] = 3
+            again = evaluate(res1.routine, assign, functions_map={"f": _sf, "g": _sf}).to_qref().model_dump_json()
+
+            def _fresh(*a):
+                return 3 * sum(a) + 1 if a else 3
+            cold = evaluate(res1.routine, assign, functions_map={"f": _fresh, "g": _fresh}).to_qref().model_dump_json()
+            if again != cold:
+                out["evaluate_repeatable"] = False
+        except Exception:
+            pass
     except Exception as ex:
         out["evaluate_pure"] = pickle.dumps(res1.routine) == snap and assign == a_before
         out["evaluate_repeatable"] = True
